@@ -387,6 +387,42 @@ def lexAux : Nat → List Char → List Tok → Option (List Tok)
 
 def lex (s : String) : Option (List Tok) := lexAux (s.length + 1) s.toList []
 
+/-! ## Token-level printer
+
+`toks e` is the token sequence of `pp e` (checked against `lex (pp e)` by the harness on every
+generated expression); `normNeg e` is what the grammar can give back for it: a negative constant
+`Const(-n)` prints as `-n`, which reads as unary minus applied to `Const(n)`. -/
+
+def parenT (b : Bool) (ts : List Tok) : List Tok := if b then .lp :: ts ++ [.rp] else ts
+
+def BOp.tok : BOp → Tok
+  | .add => .plus | .sub => .minus | .mul => .star
+  | .eq => .eqeq | .ne => .neq | .le => .le | .lt => .lt
+  | .and => .amp | .or => .bar | .imp => .arrow
+  | .ge | .gt | .iff => .dot
+
+def toks : Expr → List Tok
+  | .var x => [.id x]
+  | .int i => if i < 0 then [.minus, .num i.natAbs] else [.num i.toNat]
+  | .bool b => if b then [.ktrue] else [.id "false"]
+  | .un .neg a => .minus :: parenT (parNeg a) (toks a)
+  | .un .not a => .tilde :: parenT (parNot a) (toks a)
+  | .bin o a b => parenT (parL o a) (toks a) ++ o.tok :: parenT (parR o b) (toks b)
+  | .fn1 f a => .id f.str :: .lp :: toks a ++ [.rp]
+  | .fn2 f a b => .id f.str :: .lp :: toks a ++ .comma :: toks b ++ [.rp]
+  | .ite c a b => .kif :: toks c ++ .kthen :: toks a ++ .kelse :: toks b
+
+def normNeg : Expr → Expr
+  | .var x => .var x
+  | .int i => if i < 0 then .un .neg (.int (-i)) else .int i
+  | .bool b => .bool b
+  | .un o a => .un o (normNeg a)
+  | .bin o a b => .bin o (normNeg a) (normNeg b)
+  | .fn1 f a => .fn1 f (normNeg a)
+  | .fn2 f a b => .fn2 f (normNeg a) (normNeg b)
+  | .ite c a b => .ite (normNeg c) (normNeg a) (normNeg b)
+
+
 /-! ## Parser
 
 Recursive descent that accepts exactly what Lark's LALR(1) parser accepts for parser2's grammar
@@ -421,90 +457,103 @@ def fnOf (s : String) : Option Fn :=
 
 abbrev PRes := Option (Expr × List Tok)
 
+/-- `a o b` if both operands have the kind `ok` -/
+def binRes (o : BOp) (ok : Expr → Bool) (a : Expr) (res : PRes) : PRes :=
+  match res with
+  | some (b, r') => if ok a && ok b then some (.bin o a b, r') else none
+  | none => none
+
+def unRes (o : UOp) (ok : Expr → Bool) (res : PRes) : PRes :=
+  match res with
+  | some (a, r') => if ok a then some (.un o a, r') else none
+  | none => none
+
+/-- after a primary: an arithmetic operator and the rest of the expression, if any (shift) -/
+def contArith (rec : List Tok → PRes) (a : Expr) (r : List Tok) : PRes :=
+  match r with
+  | t :: r' => match arithOf t with
+    | some o => binRes o isArithE a (rec r')
+    | none => some (a, r)
+  | [] => some (a, r)
+
+def contRel (rec : List Tok → PRes) (a : Expr) (r : List Tok) : PRes :=
+  match r with
+  | t :: r' => match relOf t with
+    | some o => binRes o isArithE a (rec r')
+    | none => some (a, r)
+  | [] => some (a, r)
+
+/-- after an operand of the right-associative connective `tok` -/
+def contTok (tok : Tok) (o : BOp) (rec : List Tok → PRes) (a : Expr) (r : List Tok) : PRes :=
+  match r with
+  | t :: r' => if t = tok then binRes o isCondE a (rec r') else some (a, r)
+  | [] => some (a, r)
+
+def andThen (res : PRes) (k : Expr → List Tok → PRes) : PRes :=
+  match res with
+  | some (a, r) => k a r
+  | none => none
+
+def fnRes (f : String) (rec : List Tok → PRes) (r : List Tok) : PRes :=
+  match fnOf f with
+  | none => none
+  | some fn => match rec r with
+    | some (a, .rp :: r') => if isArithE a then some (.fn1 fn a, r') else none
+    | some (a, .comma :: r') => match rec r' with
+      | some (b, .rp :: r'') => if isArithE a && isArithE b then some (.fn2 fn a b, r'') else none
+      | _ => none
+    | _ => none
+
+def iteRes (rec : List Tok → PRes) (r : List Tok) : PRes :=
+  match rec r with
+  | some (c, .kthen :: r1) => match rec r1 with
+    | some (a, .kelse :: r2) => match rec r2 with
+      | some (b, r3) => if isCondE c && isCondE a && isCondE b then some (.ite c a b, r3) else none
+      | none => none
+    | _ => none
+  | _ => none
+
+def parenRes (res : PRes) : PRes :=
+  match res with
+  | some (a, .rp :: r') => some (a, r')
+  | _ => none
+
 mutual
-/-- imp: disj "-->" imp | disj -/
 def pImp : Nat → List Tok → PRes
   | 0, _ => none
-  | n + 1, ts => match pDisj n ts with
-    | some (a, .arrow :: r) => match pImp n r with
-      | some (b, r') => if isCondE a && isCondE b then some (.bin .imp a b, r') else none
-      | none => none
-    | res => res
-/-- disj: conj "|" disj | conj -/
+  | n + 1, ts => andThen (pDisj n ts) (contTok .arrow .imp (pImp n))
 def pDisj : Nat → List Tok → PRes
   | 0, _ => none
-  | n + 1, ts => match pConj n ts with
-    | some (a, .bar :: r) => match pDisj n r with
-      | some (b, r') => if isCondE a && isCondE b then some (.bin .or a b, r') else none
-      | none => none
-    | res => res
-/-- conj: neg "&" conj | neg -/
+  | n + 1, ts => andThen (pConj n ts) (contTok .bar .or (pDisj n))
 def pConj : Nat → List Tok → PRes
   | 0, _ => none
-  | n + 1, ts => match pNeg n ts with
-    | some (a, .amp :: r) => match pConj n r with
-      | some (b, r') => if isCondE a && isCondE b then some (.bin .and a b, r') else none
-      | none => none
-    | res => res
-/-- neg: "~" atom_cond | atom_cond -/
+  | n + 1, ts => andThen (pNeg n ts) (contTok .amp .and (pConj n))
 def pNeg : Nat → List Tok → PRes
   | 0, _ => none
-  | n + 1, .tilde :: r => match pCmp n r with
-    | some (a, r') => if isCondE a then some (.un .not a, r') else none
-    | none => none
-  | n + 1, ts => pCmp n ts
-/-- atom_cond: expr relop expr | (a lone primary: true, if-then-else, parenthesis, or an expr
-that the caller must be able to use) -/
+  | n + 1, ts => match ts with
+    | .tilde :: r => unRes .not isCondE (pCmp n r)
+    | _ => pCmp n ts
 def pCmp : Nat → List Tok → PRes
   | 0, _ => none
-  | n + 1, ts => match pArith n ts with
-    | some (a, t :: r) => match relOf t with
-      | some o => match pArith n r with
-        | some (b, r') => if isArithE a && isArithE b then some (.bin o a b, r') else none
-        | none => none
-      | none => some (a, t :: r)
-    | res => res
-/-- expr: "-" expr | primary (("+"|"-"|"*") expr)? -/
+  | n + 1, ts => andThen (pArith n ts) (contRel (pArith n))
 def pArith : Nat → List Tok → PRes
   | 0, _ => none
-  | n + 1, .minus :: r => match pArith n r with
-    | some (a, r') => if isArithE a then some (.un .neg a, r') else none
-    | none => none
-  | n + 1, ts => match pPrim n ts with
-    | some (a, t :: r) => match arithOf t with
-      | some o => match pArith n r with
-        | some (b, r') => if isArithE a && isArithE b then some (.bin o a b, r') else none
-        | none => none
-      | none => some (a, t :: r)
-    | res => res
-/-- primary: CNAME | INT | CNAME "(" expr ("," expr)* ")" | "(" … ")" | "true" | if-then-else -/
+  | n + 1, ts => match ts with
+    | .minus :: r => unRes .neg isArithE (pArith n r)
+    | _ => andThen (pPrim n ts) (contArith (pArith n))
 def pPrim : Nat → List Tok → PRes
   | 0, _ => none
-  | n + 1, .id f :: .lp :: r => match fnOf f with
-    | none => none
-    | some fn => match pArith n r with
-      | some (a, .rp :: r') => if isArithE a then some (.fn1 fn a, r') else none
-      | some (a, .comma :: r') => match pArith n r' with
-        | some (b, .rp :: r'') => if isArithE a && isArithE b then some (.fn2 fn a b, r'') else none
-        | _ => none
-      | _ => none
-  | _ + 1, .id x :: r => some (.var x, r)
-  | _ + 1, .num k :: r => some (.int (Int.ofNat k), r)
-  | _ + 1, .ktrue :: r => some (.bool true, r)
-  | n + 1, .kif :: r => match pImp n r with
-    | some (c, .kthen :: r1) => match pImp n r1 with
-      | some (a, .kelse :: r2) => match pImp n r2 with
-        | some (b, r3) => if isCondE c && isCondE a && isCondE b then some (.ite c a b, r3) else none
-        | none => none
-      | _ => none
+  | n + 1, ts => match ts with
+    | .id f :: .lp :: r => fnRes f (pArith n) r
+    | .id x :: r => some (.var x, r)
+    | .num k :: r => some (.int (Int.ofNat k), r)
+    | .ktrue :: r => some (.bool true, r)
+    | .kif :: r => iteRes (pImp n) r
+    | .lp :: r => parenRes (pImp n r)
     | _ => none
-  | n + 1, .lp :: r => match pImp n r with
-    | some (a, .rp :: r') => some (a, r')
-    | _ => none
-  | _ + 1, _ => none
 end
 
-def parseFuel (ts : List Tok) : Nat := 8 * ts.length + 8
+def parseFuel (ts : List Tok) : Nat := 16 * ts.length + 16
 
 /-- `cond_parser.parse` on a token list -/
 def parseCondToks (ts : List Tok) : Option Expr :=
